@@ -354,6 +354,8 @@ class Executor:
             if isinstance(ty, str):
                 if ty.startswith('{closure@'): return Closure(ty, ())
                 if ty == '()': return UNIT
+                if re.match(r'^(std::|core::)?(sync::(mpsc|mpmc)::)?(RecvError|TryRecvError)$|^(std|core)::fmt::Error$|PhantomData<|^(std::ops::)?RangeFull$|^(std::alloc::)?Global$', ty):
+                    return Opaque(ty.split('::')[-1])
             raise Unsupported('read of unassigned %s in %s' % (local, fr.fn.name))
 
     def project(s, st, v, p, fr):
@@ -543,6 +545,8 @@ class Executor:
             v = s.read_place(st, fr, rv[1])
             if isinstance(v, Enum):
                 ty = 'isize'
+                ue = getattr(s.prog, 'user_enums', None)
+                if ue and v.ty in ue and v.variant in ue[v.ty]: return Int(ty, ue[v.ty].index(v.variant))
                 return Int(ty, VARIANT_IDX[v.variant])
             raise Unsupported('discriminant of %r' % (v,))
         if k == 'len':
@@ -573,6 +577,11 @@ class Executor:
             if rv[4] is None and m and m.group(2) in VARIANT_IDX and not rv[4]:
                 return Enum(re.sub(r'::<.*>', '', m.group(1)).split('::')[-1], m.group(2), ops)
             if rv[4] is None and name in ('Start', 'End', 'Current'): return Enum('SeekFrom', name, ops)
+            ue = getattr(s.prog, 'user_enums', None)
+            if ue and m:
+                en = re.sub(r'::<.*>', '', m.group(1)).split('::')[-1]
+                if en in ue and m.group(2) in ue[en]:
+                    return Enum(en, m.group(2), ops)
             return Struct(strip_generics(name), ops)
         if k == 'closure':
             return Closure(rv[1], [s.operand(st, fr, o) for o in rv[2]])
